@@ -1,18 +1,19 @@
 #!/bin/bash
 # reseed.sh [ID...]: re-runs every kept seeded change against the current checks (each must be reported).
 ROOT="$(cd "$(dirname "$0")/.." && pwd)"
+REPO="${VERIF_REPO:-/repo}"   # a snapshot of the repository when run in the background (vp run --with-repo)
 ids=("$@")
-[ -n "$(git -C /repo status --porcelain)" ] && { echo "/repo not clean"; exit 2; }
+[ -n "$(git -C "$REPO" status --porcelain)" ] && { echo "/repo not clean"; exit 2; }
 bad=0
 for d in "$ROOT"/seeded/*/; do
   name=$(basename "$d"); id=${name%%-*}
   if [ ${#ids[@]} -gt 0 ] && [[ ! " ${ids[*]} " =~ " $id " ]]; then continue; fi
   sup=$(python3 -c "import json;print(json.load(open('$d/meta.json')).get('superseded_by',''))" 2>/dev/null)
   if [ -n "$sup" ]; then echo "$name: superseded by $sup (written against an earlier tree)"; continue; fi
-  if ! git -C /repo apply --check "$d/patch.diff" 2>/dev/null; then echo "$name: PATCH DOES NOT APPLY"; bad=1; continue; fi
-  git -C /repo apply "$d/patch.diff"
+  if ! git -C "$REPO" apply --check "$d/patch.diff" 2>/dev/null; then echo "$name: PATCH DOES NOT APPLY"; bad=1; continue; fi
+  git -C "$REPO" apply "$d/patch.diff"
   out=$("$ROOT/check" "$id" quick 2>&1); r=$?
-  git -C /repo checkout -q -- .
+  git -C "$REPO" checkout -q -- .
   cls=$(echo "$out" | grep -E "^violation class" | sed 's/ cases=.*//; s/violation class=//' | tr '\n' ' ' | cut -c1-150)
   if [ $r -eq 1 ]; then echo "$name: detected [$cls]"; else echo "$name: MISSED (exit $r)"; bad=1; fi
 done
